@@ -1514,7 +1514,9 @@ class Sym:
                 return [(st, self.simp(('addr', args[0])))]
             if base in IDENTITY_FNS and len(args) == 1:
                 return [(st, args[0])]
-        if q.startswith('ipr::util::view<') and len(args) == 1 and self.dyn_class(args[0], st) is None:
+        if q.startswith('ipr::util::view<') and len(args) == 1 and self.dyn_class(args[0], st) is None \
+                and fid.rstrip().endswith('(const ipr::Node &)'):
+            # (only the function C06.5-view verifies: another overload of the same name is evaluated like any other function)
             # util::view<K>(n) on a node of unknown class: by C06 it yields n itself exactly when n's
             # category is K, and nothing otherwise -- fork on that
             K = (callee.get('targs') or [q[len('ipr::util::view<'):-1]])[0]
